@@ -122,6 +122,17 @@ where
             let max_response_size = ctx
                 .max_response_size_hint()
                 .unwrap_or(MINIMUM_RESPONSE_BYTE_LEN);
+            // https://datatracker.ietf.org/doc/html/rfc6891#section-7
+            //   "Lack of presence of an OPT record in a request MUST be
+            //    taken as an indication that the requestor does not
+            //    implement any part of this specification"
+            // so such a requestor gets the RFC 1035 limit, whatever larger
+            // size the transport would allow.
+            let max_response_size = if request.message().opt().is_none() {
+                max_response_size.min(MINIMUM_RESPONSE_BYTE_LEN)
+            } else {
+                max_response_size
+            };
             let max_response_size = max_response_size as usize;
             let response_len = response.as_slice().len();
 
